@@ -8,7 +8,13 @@ pcorr : pair_correlation_2d/3d (explicit boundary, fraction=1, default max_rel_n
         (c) the code itself on a permuted and on a translated copy (tolerance 1e-9).
 arc   : arclen_2d_bounded against angle-interval arithmetic (1e-6 of the full circle),
         area_3d_bounded against slice quadrature (1e-4 of the full sphere; supporting evidence).
+arcfn : function mode for the 2-D edge correction: circle_cap_arclen, circle_corner_arclen and
+        arclen_2d_bounded (batch and single-pair path) against the Lean model Model/Arc.lean run at
+        Float (`ARCCAP`, `ARCCORNER`, `ARC2D`; doubles travel as bit patterns; 1e-12 relative) AND
+        against angle-interval arithmetic (1e-6).  The model's definitions, instantiated at the
+        reals, are the subject of the theorems of Props/C19Arc.lean.
 """
+import struct
 import math
 from fractions import Fraction
 
@@ -31,9 +37,10 @@ def rs(x):
 # ------------------------------------------------------------------------------------------
 # independent geometry
 
-def inside_angle(px, py, r, box):
+def inside_angle(px, py, r, box, eps=None):
     """total angle (radians) of the circle of radius r around (px, py) lying inside the closed
-    rectangle box = ((xmin, xmax), (ymin, ymax)); crossing angles + midpoint tests"""
+    rectangle box = ((xmin, xmax), (ymin, ymax)); crossing angles + midpoint tests
+    (`eps`: slack of the midpoint test; default 1e-12 * max(1, r))"""
     (x0, x1), (y0, y1) = box
     crit = [-math.pi, math.pi]
     for c in ((x0 - px) / r, (x1 - px) / r):
@@ -46,7 +53,8 @@ def inside_angle(px, py, r, box):
             crit += [a, math.pi - a if a >= 0 else -math.pi - a]
     crit = sorted(set(crit))
     tot = 0.0
-    eps = 1e-12 * max(1.0, r)
+    if eps is None:
+        eps = 1e-12 * max(1.0, r)
     for a, b in zip(crit[:-1], crit[1:]):
         if b - a <= 0:
             continue
@@ -150,11 +158,69 @@ def gen_arc(rng):
                 items=[[["%d/8" % v for v in p], "%d/8" % r] for p, r in items])
 
 
+def gen_arcfn(rng):
+    """(box, [(x, y, r)]) as float.hex strings: grid values, generic doubles, and radii placed ON
+    and one ulp around the two kinds of mask thresholds (h == r, h1^2 + h2^2 == r^2)"""
+    kind = rng.choice(["grid", "generic", "generic", "critical", "critical"])
+    if kind == "grid":
+        L = [rng.choice([8, 16, 24, 40]) / 8.0 for _ in range(2)]
+        org = [rng.randint(-16, 16) / 8.0 for _ in range(2)]
+    else:
+        L = [rng.choice([1.0, 3.0, 10.0, 512.0]) * (0.25 + rng.random()) for _ in range(2)]
+        org = [rng.uniform(-100, 100) if rng.random() < 0.5 else 0.0 for _ in range(2)]
+    box = [[org[a], org[a] + L[a]] for a in range(2)]
+    L = [box[a][1] - box[a][0] for a in range(2)]
+    items = []
+    for _ in range(rng.randint(1, 6)):
+        if kind == "grid":
+            p = [box[a][0] + rng.randint(0, int(L[a] * 8)) / 8.0 for a in range(2)]
+        else:
+            p = [min(max(box[a][0] + rng.random() * L[a], box[a][0]), box[a][1]) for a in range(2)]
+        for a in range(2):
+            u = rng.random()
+            if u < 0.12:
+                p[a] = box[a][0]
+            elif u < 0.24:
+                p[a] = box[a][1]
+        h = [p[0] - box[0][0], box[0][1] - p[0], p[1] - box[1][0], box[1][1] - p[1]]
+        u = rng.random()
+        diag = math.hypot(L[0], L[1])
+        if kind == "critical":
+            if u < 0.5:
+                r = rng.choice(h)                                  # circle tangent to a side
+            else:
+                r = math.hypot(rng.choice(h[:2]), rng.choice(h[2:]))   # circle through a corner
+            v = rng.random()
+            if v < 0.3:
+                r = math.nextafter(r, math.inf)
+            elif v < 0.6:
+                r = math.nextafter(r, 0.0)
+            elif v < 0.8:
+                r = r * (1 + rng.choice([-1, 1]) * 10.0 ** rng.randint(-12, -3))
+        elif u < 0.68:
+            r = rng.random() * max(L)
+        elif u < 0.8:
+            r = max(L) * (1 + rng.random())                        # larger than the box
+        elif u < 0.9:
+            r = diag * (1 + rng.choice([-1, 1]) * 10.0 ** rng.randint(-9, -2))
+        else:
+            r = max(L) * 10.0 ** rng.randint(-6, -1)
+        if kind == "grid" and u >= 0.5 and rng.random() < 0.7:
+            r = max(1, round(r * 8)) / 8.0
+        if not (r >= 1e-7 * max(L)) or not math.isfinite(r):    # no degenerate (zero/denormal) radii
+            r = max(L) / 8.0
+        items.append([p[0], p[1], r])
+    return dict(stream="arcfn", kind=kind, box=[[float(v).hex() for v in b] for b in box],
+                items=[[float(v).hex() for v in it] for it in items])
+
+
 def gen_cases(ctx):
     for i in range(ctx.n(250, 4000)):
         yield gen_pcorr(ctx.rng("pcorr", i))
     for i in range(ctx.n(250, 4000)):
         yield gen_arc(ctx.rng("arc", i))
+    for i in range(ctx.n(300, 6000)):
+        yield gen_arcfn(ctx.rng("arcfn", i))
 
 
 # ------------------------------------------------------------------------------------------
@@ -396,12 +462,165 @@ def run_arc_case(ctx, inp):
     return res
 
 
+# ------------------------------------------------------------------------------------------
+# edge correction 2-D, function mode against the Lean model (Model/Arc.lean at Float)
+
+def f2b(x):
+    return str(struct.unpack("<Q", struct.pack("<d", float(x)))[0])
+
+
+def b2f(s):
+    return struct.unpack("<d", struct.pack("<Q", int(s)))[0]
+
+
+def _err_bucket(res, name, err):
+    if err == 0:
+        res.stat(name + "_bit_exact")
+    elif err <= 1e-15:
+        res.stat(name + "_err_le_1e-15")
+    elif err <= 1e-13:
+        res.stat(name + "_err_le_1e-13")
+    else:
+        res.stat(name + "_err_gt_1e-13")
+
+
+def run_arcfn_case(ctx, inp):
+    from trackpy import static
+    res = Result()
+    res.stat("arcfn_cases")
+    res.stat("arcfn_kind_" + inp["kind"])
+    box = [[float.fromhex(v) for v in b] for b in inp["box"]]
+    items = [[float.fromhex(v) for v in it] for it in inp["items"]]
+    dist = np.array([it[2] for it in items])
+    pos = np.array([it[:2] for it in items])
+    boxa = np.array(box)
+    try:
+        got = static.arclen_2d_bounded(dist.copy(), pos, boxa)
+        singles = [float(static.arclen_2d_bounded(dist[i:i + 1].copy(), pos[i:i + 1], boxa)[0])
+                   for i in range(len(items))]
+    except Exception as e:  # noqa
+        res.violation("property-violation", "arclen_2d_bounded raised %r" % e,
+                      signature=dict(stream="arcfn", what="raises"))
+        return res
+    cuts = 0
+    for i, (x, y, r) in enumerate(items):
+        v = float(got[i])
+        v1 = singles[i]
+        if not (v == v1 or (math.isnan(v) and math.isnan(v1))):
+            res.violation("property-violation", "arclen_2d_bounded of one pair depends on the batch "
+                          "(%r alone, %r in a batch)" % (v1, v), impl=[v1, v],
+                          signature=dict(stream="arcfn", what="batch-dependent"))
+            break
+        # the code's own h (same IEEE operations as the model)
+        h = [x - box[0][0], box[0][1] - x, y - box[1][0], box[1][1] - y]
+        full = 2 * math.pi * r
+        ncut = sum(1 for hh in h if hh < r)
+        ncorner = sum(1 for a in h[:2] for b in h[2:] if a * a + b * b < r * r)
+        cuts += ncut
+        res.stat("arcfn_items")
+        res.stat("arcfn_sides_cut_%d" % ncut)
+        res.stat("arcfn_corners_in_circle_%d" % ncorner)
+        # ---- (b) direct oracle: angle-interval arithmetic ------------------------------------
+        # centre-relative coordinates (the h the code itself forms), slack relative to r: an arc
+        # piece can only be misjudged when it is shorter than ~1e-6 rad
+        want = r * inside_angle(0.0, 0.0, r, [[-h[0], h[1]], [-h[2], h[3]]], eps=1e-13 * r)
+        if math.isnan(v):
+            res.stat("arcfn_nan")
+            ok = want <= 1e-5 * r + 1e-6 * full
+        else:
+            ok = abs(v - want) <= 1e-6 * full
+        oracle_failed = not ok
+        if not ok:
+            res.violation("property-violation", "arclen_2d_bounded = %r but the part of the circle "
+                          "inside the box measures %r (pos=%r r=%r box=%r)" % (v, want, (x, y), r, box),
+                          impl=v, signature=dict(stream="arcfn", what="edge-correction", dim=2))
+        # ---- (a) model, function mode ------------------------------------------------------------
+        m = common.kv(ctx.ask("ARC2D " + " ".join(f2b(t) for t in (r, x, y, box[0][0], box[0][1],
+                                                                  box[1][0], box[1][1]))))
+        res.model_calls += 1
+        if "v" not in m:
+            res.violation("harness-error", "model returned %r" % (m,))
+            return res
+        mv, mraw = b2f(m["v"]), b2f(m["raw"])
+        near_guard = abs(mraw - 1e-5 * r) <= 1e-12 * full
+        if math.isnan(v) != math.isnan(mv):
+            if near_guard:
+                res.stat("arcfn_guard_borderline")
+            elif not oracle_failed:
+                res.violation("correspondence-break", "NaN guard: implementation %r, model %r (raw %r)"
+                              % (v, mv, mraw), impl=v, model=m, broken="Arc.arclen2dBounded",
+                              signature=dict(stream="arcfn", what="model-nan-guard"))
+        elif not math.isnan(v):
+            err = abs(v - mv) / full
+            _err_bucket(res, "arcfn_arclen", err)
+            if err > 1e-12 and not oracle_failed:
+                res.violation("correspondence-break", "arclen_2d_bounded = %r, model %r" % (v, mv),
+                              impl=v, model=m, broken="Arc.arclenRaw / arclen_inclusion_exclusion",
+                              signature=dict(stream="arcfn", what="model-arclen"))
+        # ---- caps: every side the circle reaches, code vs model vs one-sided-box oracle ------------
+        big = 8 * r + 8
+        caps_oracle = {}
+        for k, hh in enumerate(h):
+            if not (0 <= hh < r):
+                continue
+            c = float(static.circle_cap_arclen(hh, r))
+            ca = float(static.circle_cap_arclen(np.array([hh, hh]), np.array([r, r]))[1])
+            mc = b2f(common.kv(ctx.ask("ARCCAP %s %s" % (f2b(hh), f2b(r))))["v"])
+            res.model_calls += 1
+            oc = r * (2 * math.pi - inside_angle(0.0, 0.0, r, [[-big, hh], [-big, big]], eps=1e-13 * r))
+            caps_oracle[k] = oc
+            res.stat("arcfn_caps_compared")
+            if abs(c - oc) > 1e-6 * full or c != ca:
+                res.violation("property-violation", "circle_cap_arclen(%r, %r) = %r (array path %r) "
+                              "but the arc beyond the side measures %r" % (hh, r, c, ca, oc), impl=c,
+                              signature=dict(stream="arcfn", what="cap"))
+            else:
+                err = abs(c - mc) / max(abs(c), 1e-300) if c != mc else 0.0
+                _err_bucket(res, "arcfn_cap", err)
+                if err > 1e-12 and abs(c - mc) > 1e-15 * full:
+                    res.violation("correspondence-break", "circle_cap_arclen(%r, %r) = %r, model %r"
+                                  % (hh, r, c, mc), impl=c, model=mc,
+                                  broken="Arc.circleCapArclen / cap_angles",
+                                  signature=dict(stream="arcfn", what="model-cap"))
+        # ---- corners: the code's pairs [0,2],[0,3],[1,2],[1,3] -------------------------------------
+        for k1, k2 in ((0, 2), (0, 3), (1, 2), (1, 3)):
+            a, b = h[k1], h[k2]
+            if not (a >= 0 and b >= 0 and a * a + b * b < r * r):
+                continue
+            c = float(static.circle_corner_arclen(a, b, r))
+            mc = b2f(common.kv(ctx.ask("ARCCORNER %s %s %s" % (f2b(a), f2b(b), f2b(r))))["v"])
+            res.model_calls += 1
+            # oracle: inside = 2 pi r - cap(a) - cap(b) + corner on a two-sided box
+            ins = r * inside_angle(0.0, 0.0, r, [[-big, a], [-big, b]], eps=1e-13 * r)
+            oc = ins - full + caps_oracle[k1] + caps_oracle[k2]
+            res.stat("arcfn_corners_compared")
+            if abs(c - oc) > 1e-6 * full:
+                res.violation("property-violation", "circle_corner_arclen(%r, %r, %r) = %r but the arc "
+                              "beyond both sides measures %r" % (a, b, r, c, oc), impl=c,
+                              signature=dict(stream="arcfn", what="corner"))
+            else:
+                err = abs(c - mc) / (math.pi * r)
+                _err_bucket(res, "arcfn_corner", err)
+                if err > 1e-12:
+                    res.violation("correspondence-break", "circle_corner_arclen(%r, %r, %r) = %r, "
+                                  "model %r" % (a, b, r, c, mc), impl=c, model=mc,
+                                  broken="Arc.circleCornerArclen / corner_angles",
+                                  signature=dict(stream="arcfn", what="model-corner"))
+    res.nontrivial = cuts >= 1
+    if res.nontrivial and not res.viol and len(items) >= 3:
+        res.sample = dict(stream="arcfn", kind=inp["kind"], box=box, items=items,
+                          arclen=[None if math.isnan(float(t)) else float(t) for t in got])
+    return res
+
+
 def run_case(ctx, inp):
     s = inp.get("stream")
     if s == "pcorr":
         return run_pcorr_case(ctx, inp)
     if s == "arc":
         return run_arc_case(ctx, inp)
+    if s == "arcfn":
+        return run_arcfn_case(ctx, inp)
     res = Result()
     res.violation("harness-error", "unknown stream %r" % s)
     return res
